@@ -302,6 +302,24 @@ inline VectorXd genDecisionVector(Rng &r, const OptCase &oc, const OptRig &rig, 
 
 // The optimizer that is judged may itself be a copy: copy-constructed from the configured one, or another (possibly
 // already used) optimizer that was assigned from it.  Returns the name of the route.
+// An evaluation aborted by an exception from the user's running cost (thrown in a segment after the first, after that
+// segment's first sample), on the same optimizer and workspace as the judged call that follows.
+inline bool abortedEvaluation(Ctx &c, Rng &r, IOptimizer &opt, const OptCase &oc, const EvalOpts &eo, const VectorXd &x)
+{
+    if (oc.ref.N < 2)
+        return false;
+    CostProgram pr = oc.prog;
+    pr.rec = nullptr;
+    pr.bar_r2 = 0;
+    pr.throw_at_seg = r.range(1, oc.ref.N - 1);
+    EvalOpts e2 = eo;
+    e2.executor = r.range(0, 1); // serial executors only: an exception on a worker thread would terminate the process
+    e2.perm.clear();
+    const bool thrown = opt.evaluateThrows(x, pr, e2);
+    c.event(thrown ? "history.evaluation_aborted_by_callback_exception" : "history.callback_exception_not_reached");
+    return thrown;
+}
+
 inline const char *routeViaCopy(Rng &r, OptRig &rig)
 {
     int k = r.range(0, 11);
@@ -394,7 +412,7 @@ inline CostBreakdown recomputeCost(const OptCase &oc, const Problem &dec, bool t
             LD st[5][kMaxDim];
             for (int d = 0; d < 5; ++d)
                 for (int j = 0; j < dec.dim; ++j)
-                    st[d][j] = polyDerivD(&C(i * nc, j), 1, nc, t, d).value;
+                    st[d][j] = polyDerivD(&C(i * nc, j), colStride(C), nc, t, d).value;
             LD c = oc.prog.runValueLD(tstart + t, i, st[0], st[1], st[2], st[3], st[4]);
             LD w = (k == 0 || k == oc.K) ? 0.5L : 1.0L;
             b.integral += w * (T / oc.K) * c;
@@ -408,7 +426,7 @@ inline CostBreakdown recomputeCost(const OptCase &oc, const Problem &dec, bool t
         for (int j = 0; j < dec.dim; ++j)
             for (int i = 0; i < dec.N; ++i)
             {
-                PolyVal ev = energyExact(&C(i * nc, j), 1, nc, dec.s(), dec.T[i]);
+                PolyVal ev = energyExact(&C(i * nc, j), colStride(C), nc, dec.s(), dec.T[i]);
                 E += ev.value;
                 Ea += ev.abssum;
             }
